@@ -777,11 +777,11 @@ fn main() {
      nonce, every excluding scope). Non-trivial = a token was produced; distinct by the class tuple of those dimensions.",
   );
   let mut rng = args.rng(8);
-  let n_a = (if args.thorough { 240_000u64 } else { 8_000 } * scale / 1000 / args.nshards).max(60);
+  let n_a = (if args.thorough { 2_400_000u64 } else { 8_000 } * scale / 1000 / args.nshards).max(60);
   for _ in 0..n_a {
     cx.encoder_case(&mut rng);
   }
-  let n_docs = (if args.thorough { 1_600u64 } else { 64 } * scale / 1000 / args.nshards).max(2);
+  let n_docs = (if args.thorough { 16_000u64 } else { 64 } * scale / 1000 / args.nshards).max(2);
   let per_doc = if args.thorough { 40 } else { 25 };
   for d in 0..n_docs {
     let iota = d % 3 == 2;
